@@ -214,6 +214,12 @@ func staticCases(w *core.Writer, r *core.Rand) {
 		x, name := methodRoot(p, k)
 		runSecure(w, fmt.Sprintf("static-meth-%d", k), "secure-static", name, "ptr", x, p.cans, p.secFields)
 	}
+	// ---- self-recursive and mutually recursive types, finite values, secrets at depth 1..4
+	for k := 0; k < 3*nRecPayloads; k++ {
+		p := &planter{}
+		x, name := recRoot(p, k)
+		runSecure(w, fmt.Sprintf("static-rec-%d", k), "secure-static", name, "ptr", x, p.cans, p.secFields)
+	}
 }
 
 func jsonOf(x any) string {
